@@ -149,6 +149,12 @@ def reshape(req):
         raise webob.exc.HTTPConflict(
             'Unable to allocate inventory: %(error)s' % {'error': exc})
 
+    # Empty allocations for consumers that did not exist: nothing was
+    # written for them, so do not keep consumer records without allocations.
+    allocation.delete_consumers(
+        [consumer for consumer in new_consumers_created
+         if not allocations[consumer.uuid]['allocations']])
+
     req.response.status = 204
     req.response.content_type = None
     return req.response
